@@ -264,7 +264,7 @@ def run(ctx):
     ctx.sample({"op": tl[0], "impl": out[0]}); ctx.sample({"op": tl[-1], "impl": out[-1]})
     ctx.tie("triples", kind="completeness predicate evaluated on the implementation (both modes)", triples=len(tri))
     # 2. every Q: consistency predicate on the implementation + set equality with the oracle, both modes
-    qs = list(dict.fromkeys(q for _, _, q in tri))
+    qs = list({key_of(q): q for _, _, q in tri}.values())     # distinct board+side+castling+ep
     st = check_positions(ctx, vh, qs, (1, 0), "game-positions")
     # 3. synthetic positions (not necessarily reachable): promoted pieces, e.p. shapes, castling flags
     syn = [f for f in chessgen.synthetic(ctx.rng, 1500 if quick else 60000)]
@@ -272,7 +272,7 @@ def run(ctx):
     syn += [motif_ep_origin(ctx.rng) for _ in range(300 if quick else 6000)] + EP_ORIGIN_PROBES
     ok, o, err = par_lines(vh, [f"chess fen {f}" for f in syn])
     acc = [x[3:] for x in o if x.startswith("ok ")] if ok else []
-    acc = list(dict.fromkeys(acc))
+    acc = list({key_of(q): q for q in acc}.values())
     st2 = check_positions(ctx, vh, acc, (1, 0), "synthetic-positions")
     ctx.cov["position_stats"] = {"game_positions": len(qs), "synthetic_positions": len(acc),
                                  "game": dict(st), "synthetic": dict(st2),
